@@ -54,7 +54,7 @@ def gen(rng, n, tier):
         m0 = d["missed"]
         yield [["bucket", "%dd/%s" % (nd, "+".join(it[0] for it in items))], ["hist", h], ["names", d["names"]],
                ["under", m0[0] if nd == 1 else 0], ["over", m0[1] if nd == 1 else 0], ["keep", keep], ["items", items], ["tuple", tup],
-               ["npint", rng.choice(["F", "F", "int64", "int32"])], ["peek", rng.choice(["T", "F"])]]      # integer indices spelled as numpy integers (impl side only)
+               ["npint", rng.choice(["F", "F", "int64", "int32"])], ["peek", rng.choice(["T", "F"])], ["aslist", "T" if (nd == 1 and rng.random() < 0.4) else "F"]]      # integer indices spelled as numpy integers (impl side only)
 
 def _py_item(it):
     import numpy as np
@@ -72,6 +72,8 @@ def impl(case):
     before = C.snap(h)
     items = [_py_item(it) for it in d["items"]]
     if d.get("npint", "F") != "F": items = [(getattr(np, d["npint"])(x) if isinstance(x, int) else x) for x in items]
+    if d.get("aslist", "F") == "T":      # index arrays and masks written as plain python lists
+        items = [(x.tolist() if isinstance(x, np.ndarray) and x.size else x) for x in items]
     idx = tuple(items) if d["tuple"] == "T" else items[0]
     if d.get("peek", "F") == "T":      # the source's edge representations were looked at (and cached) before the selection
         for b in h._binnings: _ = (b.numpy_bins if b.is_consecutive() else None, b.first_edge, b.last_edge, b.bins)
